@@ -50,7 +50,11 @@ FaceInputs ==
 
 \* (iv) overlapping low-resolution mixes: a base cell together with its own quintants, the world cell
 ULow == {World, B(0), B(1), B(5)} \cup Quints(1)
+\* (v) the same parent/children/sibling structure at the deep end of the resolution range (res 27..29)
+DeepP == [res |-> 28, face |-> 11, seg |-> 2, s |-> [k \in 1..27 |-> IF k = 27 THEN 1 ELSE 3 - (k % 4)]]
+UDeep == {DeepP, Parent(DeepP)} \cup Kids(DeepP) \cup (Kids(Parent(DeepP)) \ {DeepP})
 Inputs == CASE Family = "subsets" -> SUBSET USubsets
+            [] Family = "deep" -> SUBSET UDeep
             [] Family = "lowres" -> SUBSET ULow
             [] Family = "antichains" -> AntichainInputs
             [] Family = "faces" -> FaceInputs
